@@ -78,6 +78,9 @@ def write_if_changed(path, content):
         pass
     with open(path, 'w') as f:
         f.write(content)
+    # make sure the file is newer than anything compiled from an earlier version within the same clock tick
+    t = time.time() + 1.0
+    os.utime(path, (t, t))
     return True
 
 
@@ -199,6 +202,11 @@ def run_coq_translators():
     """regenerate coq/gen/*.v from /repo's current source; returns dict name -> info"""
     sys.path.insert(0, os.path.join(ROOT, 'tools', 'translate'))
     info = {}
+    with Lock('translate'):
+        return _run_coq_translators_locked(info)
+
+
+def _run_coq_translators_locked(info):
     for mod in sorted(glob.glob(os.path.join(ROOT, 'tools', 'translate', 'tr_*.py'))):
         name = os.path.basename(mod)[:-3]
         m = __import__(name)
@@ -439,6 +447,7 @@ class Check:
     def prove(self):
         """regenerate translated parts, build the development, check the property's theorems.
         Returns list of broken obligations (dicts)."""
+        ensure_impl('hooks')      # translators that probe the compiled code must see the current working tree
         tinfo = run_coq_translators()
         self.notes['translators'] = tinfo
         bad = hygiene_scan()
